@@ -41,6 +41,26 @@ fixed("C03", "gob-rt *.* link", "54892bb", "gobEncodeItem wrote nothing for a Li
 fixed("C03", "gob-rt Endpoints.* iri", "b5ade32", "Endpoints.GobEncode/GobDecode were empty stubs", "cell: pkg Actor.Endpoints endpoints-shared")
 fixed("C03", "gob-rt *.* type:Object", "be18c01", "an embedded object with neither id nor type was gob decoded as an IRI made of the raw gob bytes", "cell: pkg Object.Tag list3:link")
 
+# ---- C19
+fixed("C19", "nlv equals len>=2 want=eq", "f0ada0b", "NaturalLanguageValues.Equals returned false for any list with two entries, itself included (nested loop)", "equality layer: [en:one fr:two] == itself")
+# ---- C09
+fixed("C09", "eq refl link", "fad7c93", "ItemsEqual had no branch for Links: a Link, and every object holding one, was not equal to itself", "cell: Object.Attachment link")
+fixed("C09", "eq refl iris", "275bbc2", "an IRIs list was never equal to anything, itself included (ItemCollection.Equals refused the IRI-list type)", "random layer: IRIs{a,b}")
+fixed("C09", "eq refl list-with-idless-member", "0bd8bfb", "ItemCollection.Equals looked members up by IRI: a list with an id-less member was not equal to itself", "cell: Object.Tag list3:link")
+fixed("C09", "eq sens id-*", "d6489cd", "collection Equals ignored a failed conversion of the other item: collections of different kinds with different ids compared equal", "OrderedCollectionPage{id A} vs OrderedCollection{id B}")
+# ---- C10
+fixed("C10", "recipients Block panic@removeFromCollection nil-entry", "1a20acb", "Recipients() of a Block whose lists hold a nil entry panicked", "pairs layer: Activity[Block] To=[nil]")
+# ---- C18
+fixed("C18", "copy *.Duration only-to", "89acbac", "inverted guard: duration of `to` zeroed when `from` has none, and never taken when set", "cell: Object.Duration only-to pos")
+fixed("C18", "copy *.Source only-to", "61c2ed3", "a source with a media type set only in `to` was replaced by from's empty source", "cell: Object.Source only-to source-full")
+fixed("C18", "copy panic@(*Collection).GetLink *", "a71688b", "typed-nil `to`/`from` passed the nil check and panicked in GetLink", "random layer: mode typed-nil-to")
+# ---- C16
+fixed("C16", "flatten * Replies obj:Object-idless", "7e68739", "Flatten replaced id-less objects by IRI(\"\") and links by their id in replies/likes/shares/attributedTo", "positions layer: FlattenProperties Object[Note].Replies idless")
+fixed("C16", "flatten * To list:*", "4de4f8a", "FlattenItemCollection wrote the de-duplicated IRIs back by position: a nil or id-less member shifted every later IRI one slot", "lists layer: FlattenProperties Object.To [1 4 2]")
+fixed("C16", "flatten * To list:idless", "8dab7c3", "recipient de-duplication recorded id-less entries as the empty IRI: a second id-less member was dropped and an empty addressee invented", "lists layer: FlattenProperties Object.To [3 3]")
+# ---- C15
+fixed("C15", "typer item explicit-* actor *", "217dcb6", "CollectionPath.Of/IRI ignored an actor's explicit inbox/outbox/liked/following/followers (object branch overwrote the actor branch)", "items layer: actor ... inbox explicit=iri")
+
 out = {"comment": "Committed list of genuine defects of go-ap/activitypub found by the checks (rendered by tools/findings.py; never written at check run time). "
                   "status=known: recorded, not repaired; the check prints KNOWN-FINDING and masks exactly the keyed cell. "
                   "status=fixed: repaired by the named fix: commit in /repo; masks nothing, the violation is reported again if it returns.",
